@@ -117,6 +117,19 @@ CHECKS = {
        "The real Row.Scan is called on every (grid value x destination incl. nil and unsupported ones) and on random rows of width 0..3 x destination lists of length 0..4; real lifetime histories (scan into []byte/string, overwrite the slice, re-read warm and fresh, close, overwrite the file; in-page and overflowing values) run on SQLite-written files; TLC judges error/no error, zero values, the documented conversion where it is defined independently of Go, no panic, row unchanged, and the lifetime observations.",
   note=NOTE + "exact results of Go's out-of-range float->int conversion, float formatting and strconv corner syntax are left open ('-'); the text classes (numeric / time / other) are assigned by the generator",
   design="6 C18, 3.11"),
+ "C19": dict(
+  technique="TLA+ spec Driver.tla (producer/consumer, cancel, wait group, error hand-off) model-checked incl. deadlock; trace validation by TLC (TraceDriver.tla, producer steps silent) of scenarios run through database/sql on the real driver",
+  text="Driver.tla models the producer goroutine (lock, scan, select{ctx.Done | send}, unlock, store error, wg.Done, close channel) and the consumer (Next*, Close, external cancel); TLC checks Cleanup, ErrBeforeClose, NoSilentShort, PrefixDelivered, FailureSurfaces and deadlock freedom for up to 3 rows and every fault position. "
+       "Real scenarios through database/sql: Next x k then Close / cancel+Close / drain for many k, GOMAXPROCS 1 and 4, producer given a head start or not, prepared statements kept open, read faults at each of the first page reads of the statement's handle, statements that must fail; after each: file lock of the process (/proc/locks), goroutine count, pager activity after Close returned. "
+       "TLC accepts a scenario iff Driver.tla explains its observations; complete result sets are compared with the native Select by TLC; `*` expansion is checked against the table's column order.",
+  note=NOTE + "interleavings are reached through GOMAXPROCS and short yields (sampled), not driven by gates; goroutine leaks judged after a settle period",
+  design="6 C19, 3.12"),
+ "C20": dict(
+  technique="TLA+ spec System.tla (handles with private state, free interleaving) model-checked; TLC-simulated interleavings replayed with gated goroutines on real handles; free-running stress under the race-detector build; results judged by TLC (TraceSystem.tla)",
+  text="System.tla: every step touches only its handle's private state; Independence (every operation's result equals its solo result), NoSharedWrites and the Isolation action property hold for all interleavings of 3 handles x 2 operations. "
+       "Interleavings simulated from the model are replayed on three real handles in one process, each operation parked at every lock/page/callback event so that the schedule decides which goroutine steps next; then N goroutines x M operations on own native handles (same and different files, tables whose DDL spells keywords in many cases) and goroutines sharing database/sql pools (incl. result sets closed right after Query) run freely under `go build -race` BEFORE any sequential warm-up; every result is compared with the solo result and race reports are counted.",
+  note=NOTE + "data races are what Go's race detector sees on the executed schedules: this half is monitored execution of the conformance harness, as DESIGN.md section 8 states; no writer is active here",
+  design="6 C20, 3.13"),
 }
 
 NOT_YET = "check not built yet (work in progress; see DESIGN.md section 9 order of work)"
